@@ -274,7 +274,31 @@ def run_world(sc, observe=0, snapshot=True, setup=None, mutate_constraints=True,
             warnings.simplefilter("always")
             party = Party(sc, ctx)
             tr.party = party
-            sim = build_sim(sc, party)
+            sl = sc.get("second_life")
+            if sl and sc["network"]["kind"] == "custom":
+                # first life: the same scenario, fault-free, run to completion; the second life (the one that is observed and
+                # judged) re-uses the long-lived objects the scenario names: the network (vacated), the drained event queue
+                # (refilled with add_events), the EV objects (after EV.reset()) and the algorithm object (re-registered)
+                sc1 = dict(sc, faults=[], reconfig=[])
+                ctx1 = Ctx(sc1, observe=0, snapshot=False)
+                party1 = Party(sc1, ctx1)
+                sim1 = build_sim(sc1, party1)
+                ctx1.sim = sim1
+                _CUR[0] = ctx1
+                sim1.run()
+                _CUR[0] = ctx
+                reuse_evs = None
+                if sl.get("evs"):
+                    reuse_evs = dict(sim1.ev_history)
+                    for ev_ in reuse_evs.values():
+                        ev_.reset()
+                if sl.get("algo") and party1.inner is not None:
+                    party.inner = party1.inner
+                sim = build_sim(sc, party, network=sim1.network if sl.get("network") else None, reuse_evs=reuse_evs,
+                                reuse_queue=sim1.event_queue if sl.get("queue") else None)
+                ctx.fired("second_life")
+            else:
+                sim = build_sim(sc, party)
             ctx.sim = sim
             tr.sim0 = sim
             if sc["sim"].get("json_clone"):
